@@ -504,8 +504,8 @@ fn bulk_select1_bmi2(bit_data: &[u64], indices: &[usize]) -> Result<Vec<usize>> 
             let word = bit_data[word_idx];
 
             unsafe {
-                // Use PDEP to extract the nth set bit position
-                let mask = (1u64 << remaining_rank) - 1;
+                // Use PDEP to deposit a single bit at the position of the nth set bit
+                let mask = 1u64 << (remaining_rank - 1);
                 let selected_bits = _pdep_u64(mask, word);
 
                 if selected_bits != 0 {
